@@ -1,4 +1,5 @@
 import MontePyVerif.Model.ListNode
+import MontePyVerif.Model.ShortcutParse
 import MontePyVerif.Spec.Shortcut
 import MontePyVerif.Gen.Shortcuts
 /-!
@@ -13,6 +14,9 @@ Proved here (all inputs, no bound on sizes):
                             kinds and letters that model, harness and Spec assume.
 * `C08_recompress`, `C08_grow_shrink` — for ALL original shortcut lists and ALL new value lists the words written by
                             `format (update_with_new_values ..)` are read by the Spec as the new values;
+* `C08_expand`            — for every token list of G the parse-time expansion (Model/ShortcutParse.lean) accepts exactly
+                            when the Spec does and yields exactly the Spec's values (`C08_expand_zero_count_refuted`: why
+                            the count 0 is outside G);
 * `C08_wellformed`        — plain nodes hold numbers, jump shortcuts only jumps, other shortcuts only numbers;
 * `C08_format_sound`      — local correctness of `ShortcutNode.format` for every run and every carried entry.
 -/
@@ -1175,5 +1179,337 @@ example : Sound (MontePyVerif.Model.Shortcut.format exampleRun (some 2)).words
     (MontePyVerif.Model.Shortcut.format exampleRun (some 2)).tail exampleRun.nodes ⟨[Val.num 2], some 2, none⟩ :=
   C08_format_sound exampleRun (some 2) ⟨[Val.num 2], some 2, none⟩
     (by constructor <;> simp [exampleRun, orphanJump]) rfl (by simp)
+
+open MontePyVerif.Model.ShortcutParse
+
+/-! ## Parse-time expansion agrees with MCNP's reading -/
+
+def PTok.toEntry : PTok → Entry
+  | .num x => Entry.num x
+  | .rep n => Entry.rep n
+  | .mul x => Entry.mul x
+  | .jmp n => Entry.jmp n
+  | .lin n => Entry.lin n
+  | .log n => Entry.log n
+
+def PVal.toVal : PVal → Val
+  | .num x => Val.num x
+  | .jump => Val.jump
+  | .logv a b n k => Val.logv a b n k
+
+/-- the token is a word of the grammar G of DESIGN 5.2: a count, when written, is `1 … 999` (never `0`) -/
+def PTok.inG : PTok → Bool
+  | .rep (some 0) | .jmp (some 0) | .lin (some 0) | .log (some 0) => false
+  | _ => true
+
+def PRel (acc : List PItem) (S : St) : Prop :=
+  S.pend = none ∧ (flatRevP acc).map PVal.toVal = S.out ∧ lastNum acc = S.prev
+
+def finish (s : St) : Option (List Val) := if s.pend.isNone then some s.out else none
+
+theorem flatP_reverse (acc : List PItem) : flatP acc.reverse = flatRevP acc := by
+  induction acc with
+  | nil => rfl
+  | cons x rest ih => simp [flatP, flatRevP] at *; rw [ih]
+
+theorem absorb_flat (acc : List PItem) : flatRevP (absorb acc).2 ++ (absorb acc).1 = flatRevP acc := by
+  cases acc with
+  | nil => simp [absorb, flatRevP]
+  | cons it rest =>
+    cases it with
+    | value x => simp [absorb, flatRevP, PItem.vals]
+    | sc k ns => simp [absorb, flatRevP]
+
+theorem getD_pos (n : Option Nat) (h : n ≠ some 0) : ∃ m, n.getD 1 = m + 1 := by
+  cases n with
+  | none => exact ⟨0, rfl⟩
+  | some k =>
+    cases k with
+    | zero => exact absurd rfl h
+    | succ m => exact ⟨m, rfl⟩
+
+theorem lastNum_snoc (ns : List PVal) (x : Rat) (rest : List PItem) (k : PKind) :
+    lastNum (PItem.sc k (ns ++ [PVal.num x]) :: rest) = some x := by
+  simp [lastNum, PItem.vals]
+
+theorem rel_repeat (acc acc' : List PItem) (S : St) (n : Option Nat) (h : PRel acc S) (hn : n ≠ some 0)
+    (he : expandRepeat acc n = some acc') :
+    ∃ S', step S (Entry.rep n) = some S' ∧ PRel acc' S' := by
+  obtain ⟨out, prev, pend⟩ := S
+  obtain ⟨h1, h2, h3⟩ := h
+  simp only at h1 h2 h3
+  subst h1
+  unfold expandRepeat at he
+  split at he
+  · simp at he
+  · rename_i a ha
+    simp only [Option.some.injEq] at he
+    subst he
+    rw [ha] at h3
+    subst h3
+    obtain ⟨m, hm⟩ := getD_pos n hn
+    refine ⟨⟨out ++ List.replicate (n.getD 1) (Val.num a), some a, none⟩, by simp [step], rfl, ?_, ?_⟩
+    · simp only [flatRevP, PItem.vals, ← List.append_assoc, absorb_flat, List.map_append, h2, List.map_replicate,
+        PVal.toVal]
+    · simp only [hm, List.replicate_succ', ← List.append_assoc]
+      exact lastNum_snoc _ a _ _
+
+theorem rel_multiply (acc acc' : List PItem) (S : St) (x : Rat) (h : PRel acc S)
+    (he : expandMultiply acc x = some acc') :
+    ∃ S', step S (Entry.mul x) = some S' ∧ PRel acc' S' := by
+  obtain ⟨out, prev, pend⟩ := S
+  obtain ⟨h1, h2, h3⟩ := h
+  simp only at h1 h2 h3
+  subst h1
+  unfold expandMultiply at he
+  split at he
+  · simp at he
+  · rename_i a ha
+    simp only [Option.some.injEq] at he
+    subst he
+    rw [ha] at h3
+    subst h3
+    refine ⟨⟨out ++ [Val.num (a * x)], some (a * x), none⟩, by simp [step], rfl, ?_, lastNum_snoc _ _ _ _⟩
+    simp only [flatRevP, PItem.vals, ← List.append_assoc, absorb_flat, List.map_append, h2, List.map_cons,
+      List.map_nil, PVal.toVal]
+
+theorem rel_jump (acc : List PItem) (S : St) (n : Option Nat) (h : PRel acc S) (hn : n ≠ some 0) :
+    ∃ S', step S (Entry.jmp n) = some S' ∧ PRel (expandJump acc n) S' := by
+  obtain ⟨out, prev, pend⟩ := S
+  obtain ⟨h1, h2, h3⟩ := h
+  simp only at h1 h2 h3
+  subst h1
+  obtain ⟨m, hm⟩ := getD_pos n hn
+  refine ⟨⟨out ++ List.replicate (n.getD 1) Val.jump, none, none⟩, by simp [step], rfl, ?_, ?_⟩
+  · simp only [expandJump, flatRevP, PItem.vals, List.map_append, h2, List.map_replicate, PVal.toVal]
+  · simp [expandJump, lastNum, PItem.vals, hm, List.replicate_succ']
+
+theorem lin_alg' (b e D k : Rat) : b + (e - b) / D * k = b + (e - b) * k / D := by grind
+
+theorem rel_interp (acc acc' : List PItem) (S : St) (n : Option Nat) (isLog : Bool) (e : Rat) (h : PRel acc S)
+    (he : expandInterpolate acc n isLog e = some acc') :
+    ∃ S1 S', step S (if isLog then Entry.log n else Entry.lin n) = some S1 ∧ step S1 (Entry.num e) = some S' ∧
+      PRel acc' S' := by
+  obtain ⟨out, prev, pend⟩ := S
+  obtain ⟨h1, h2, h3⟩ := h
+  simp only at h1 h2 h3
+  subst h1
+  unfold expandInterpolate at he
+  split at he
+  · simp at he
+  · rename_i b hb
+    rw [hb] at h3
+    subst h3
+    simp only at he
+    split at he
+    · simp at he
+    · rename_i hdom
+      simp only [Option.some.injEq] at he
+      subst he
+      refine ⟨⟨out, some b, some (b, n.getD 1, isLog)⟩, ⟨out ++ between b e (n.getD 1) isLog ++ [Val.num e], some e, none⟩,
+        ?_, ?_, rfl, ?_, ?_⟩
+      · cases isLog <;> simp [step]
+      · simp only [step]
+        simp only [hdom]
+        simp
+      · simp only [flatRevP, PItem.vals, ← List.append_assoc, absorb_flat, List.map_append, h2, List.map_cons,
+          List.map_nil, PVal.toVal, List.map_map, between]
+        congr 2
+        apply List.map_congr_left
+        intro i _
+        cases isLog
+        · simp [PVal.toVal, lin_alg']
+        · simp [PVal.toVal]
+      · exact lastNum_snoc _ e _ _
+
+
+theorem step_pend_nonnum (S : St) (p : Rat × Nat × Bool) (hp : S.pend = some p) (t : Entry)
+    (ht : ∀ x, t ≠ Entry.num x) : step S t = none := by
+  cases t with
+  | num x => exact absurd rfl (ht x)
+  | rep n => simp [step, hp]
+  | mul x => simp [step, hp]
+  | jmp n => simp [step, hp]
+  | lin n => simp [step, hp]
+  | log n => simp [step, hp]
+
+theorem step_interp_none (S : St) (isLog : Bool) (n : Option Nat) (hp : S.pend = none) (hprev : S.prev = none) :
+    step S (if isLog then Entry.log n else Entry.lin n) = none := by
+  cases isLog <;> simp [step, hp, hprev]
+
+theorem step_interp_some (S : St) (isLog : Bool) (n : Option Nat) (a : Rat) (hp : S.pend = none)
+    (hprev : S.prev = some a) :
+    step S (if isLog then Entry.log n else Entry.lin n) = some ⟨S.out, some a, some (a, n.getD 1, isLog)⟩ := by
+  cases isLog <;> simp [step, hp, hprev]
+
+/-- an interpolation token: the model looks ahead for the closing number, the Spec keeps it pending -/
+theorem sim_interp (isLog : Bool) (n : Option Nat) (rest : List PTok) (acc : List PItem) (S : St) (h : PRel acc S)
+    (ih : ∀ e ts acc' S', rest = PTok.num e :: ts → PRel acc' S' →
+      (parseAux ts acc').map (fun items => (flatP items).map PVal.toVal) = (run (ts.map PTok.toEntry) S').bind finish) :
+    (match rest with
+      | PTok.num e :: ts => (match expandInterpolate acc n isLog e with
+        | some acc' => parseAux ts acc'
+        | none => none)
+      | _ => none).map (fun items => (flatP items).map PVal.toVal)
+    = (run ((if isLog then Entry.log n else Entry.lin n) :: rest.map PTok.toEntry) S).bind finish := by
+  simp only [run]
+  cases hprev : S.prev with
+  | none =>
+    rw [step_interp_none S isLog n h.1 hprev]
+    have hl : lastNum acc = none := by rw [h.2.2, hprev]
+    cases rest with
+    | nil => simp
+    | cons t ts =>
+      cases t <;> simp [expandInterpolate, hl]
+  | some a =>
+    rw [step_interp_some S isLog n a h.1 hprev]
+    simp only
+    cases rest with
+    | nil => simp [run, finish]
+    | cons t ts =>
+      cases t with
+      | num e =>
+        simp only [List.map_cons, PTok.toEntry, run]
+        cases he : expandInterpolate acc n isLog e with
+        | none =>
+          simp only [Option.map_none]
+          have hl : lastNum acc = some a := by rw [h.2.2, hprev]
+          unfold expandInterpolate at he
+          simp only [hl] at he
+          split at he
+          · rename_i hdom
+            simp only [step, hdom, if_true, Option.bind_none]
+          · simp at he
+        | some acc' =>
+          obtain ⟨S1, S', g1, g2, g3⟩ := rel_interp acc acc' S n isLog e h he
+          rw [step_interp_some S isLog n a h.1 hprev] at g1
+          simp only [Option.some.injEq] at g1
+          subst g1
+          rw [g2]
+          exact ih e ts acc' S' rfl g3
+      | rep m => simp [PTok.toEntry, run, step]
+      | mul x => simp [PTok.toEntry, run, step]
+      | jmp m => simp [PTok.toEntry, run, step]
+      | lin m => simp [PTok.toEntry, run, step]
+      | log m => simp [PTok.toEntry, run, step]
+
+
+theorem parseAux_interp (isLog : Bool) (n : Option Nat) (rest : List PTok) (acc : List PItem) :
+    parseAux ((if isLog then PTok.log n else PTok.lin n) :: rest) acc =
+      (match rest with
+      | PTok.num e :: ts => (match expandInterpolate acc n isLog e with
+        | some acc' => parseAux ts acc'
+        | none => none)
+      | _ => none) := by
+  cases isLog <;> (cases rest with
+    | nil => simp [parseAux]
+    | cons t ts => cases t <;> first | rfl | simp [parseAux])
+
+theorem rel_num (acc : List PItem) (S : St) (x : Rat) (h : PRel acc S) :
+    ∃ S', step S (Entry.num x) = some S' ∧ PRel (PItem.value x :: acc) S' := by
+  obtain ⟨out, prev, pend⟩ := S
+  obtain ⟨h1, h2, h3⟩ := h
+  simp only at h1 h2 h3
+  subst h1
+  exact ⟨⟨out ++ [Val.num x], some x, none⟩, by simp [step], rfl,
+    by simp [flatRevP, PItem.vals, h2, PVal.toVal], by simp [lastNum, PItem.vals]⟩
+
+theorem sim : ∀ (k : Nat) (ts : List PTok) (acc : List PItem) (S : St), ts.length ≤ k → PRel acc S →
+    (∀ t ∈ ts, PTok.inG t = true) →
+    (parseAux ts acc).map (fun items => (flatP items).map PVal.toVal) = (run (ts.map PTok.toEntry) S).bind finish := by
+  intro k
+  induction k with
+  | zero =>
+    intro ts acc S hlen h _
+    have : ts = [] := List.eq_nil_of_length_eq_zero (Nat.le_zero.mp hlen)
+    subst this
+    simp [parseAux, run, finish, h.1, flatP_reverse, h.2.1]
+  | succ k ih =>
+    intro ts acc S hlen h hg
+    cases ts with
+    | nil => simp [parseAux, run, finish, h.1, flatP_reverse, h.2.1]
+    | cons t ts =>
+      have hlen' : ts.length ≤ k := by simp at hlen; omega
+      have hg' : ∀ t' ∈ ts, PTok.inG t' = true := fun t' ht' => hg t' (List.mem_cons_of_mem _ ht')
+      have hgt := hg t List.mem_cons_self
+      cases t with
+      | num x =>
+        obtain ⟨S', g1, g2⟩ := rel_num acc S x h
+        simp only [parseAux, List.map_cons, PTok.toEntry, run, g1]
+        exact ih ts _ S' hlen' g2 hg'
+      | jmp n =>
+        have hn : n ≠ some 0 := by intro hn; subst hn; simp [PTok.inG] at hgt
+        obtain ⟨S', g1, g2⟩ := rel_jump acc S n h hn
+        simp only [parseAux, List.map_cons, PTok.toEntry, run, g1]
+        exact ih ts _ S' hlen' g2 hg'
+      | rep n =>
+        have hn : n ≠ some 0 := by intro hn; subst hn; simp [PTok.inG] at hgt
+        simp only [parseAux, List.map_cons, PTok.toEntry, run]
+        cases he : expandRepeat acc n with
+        | none =>
+          have : S.prev = none := by
+            unfold expandRepeat at he
+            split at he
+            · rename_i hl; rw [← h.2.2]; exact hl
+            · simp at he
+          simp [step, h.1, this]
+        | some acc' =>
+          obtain ⟨S', g1, g2⟩ := rel_repeat acc acc' S n h hn he
+          simp only [g1]
+          exact ih ts _ S' hlen' g2 hg'
+      | mul x =>
+        simp only [parseAux, List.map_cons, PTok.toEntry, run]
+        cases he : expandMultiply acc x with
+        | none =>
+          have : S.prev = none := by
+            unfold expandMultiply at he
+            split at he
+            · rename_i hl; rw [← h.2.2]; exact hl
+            · simp at he
+          simp [step, h.1, this]
+        | some acc' =>
+          obtain ⟨S', g1, g2⟩ := rel_multiply acc acc' S x h he
+          simp only [g1]
+          exact ih ts _ S' hlen' g2 hg'
+      | lin n =>
+        have := sim_interp false n ts acc S h (fun e ts' acc' S' hts hr =>
+          ih ts' acc' S' (by subst hts; simp at hlen'; omega) hr
+            (fun t' ht' => hg' t' (by subst hts; exact List.mem_cons_of_mem _ ht')))
+        have hp := parseAux_interp false n ts acc
+        simp only [Bool.false_eq_true, if_false] at this hp
+        rw [hp]
+        simpa [PTok.toEntry] using this
+      | log n =>
+        have := sim_interp true n ts acc S h (fun e ts' acc' S' hts hr =>
+          ih ts' acc' S' (by subst hts; simp at hlen'; omega) hr
+            (fun t' ht' => hg' t' (by subst hts; exact List.mem_cons_of_mem _ ht')))
+        have hp := parseAux_interp true n ts acc
+        simp only [if_true] at this hp
+        rw [hp]
+        simpa [PTok.toEntry] using this
+
+/-- **C08_expand.** For every token list of the grammar G (every kind, every count ≥ 1 or omitted, adjacent
+    shortcuts, shortcuts at either end): the parser accepts the list exactly when MCNP's reader does, and then the
+    values of the (virtual) value nodes, in list order, ARE what MCNP reads, position by position — numbers (linear
+    interpolates exactly, on rationals), jumps as jumps, logarithmic interpolates as the same symbolic value
+    `logv a b n k` (whose double the correspondence checks against the defining relation). -/
+theorem C08_expand (ts : List PTok) (hG : ∀ t ∈ ts, PTok.inG t = true) :
+    (parseList ts).map (fun items => (flatP items).map PVal.toVal) = expand (ts.map PTok.toEntry) := by
+  have := sim ts.length ts [] St.init (Nat.le_refl _) ⟨rfl, rfl, rfl⟩ hG
+  unfold parseList
+  rw [this]
+  unfold expand finish
+  cases run (ts.map PTok.toEntry) St.init <;> rfl
+
+/-- non-vacuity: a list of G with every kind, adjacent shortcuts and shortcuts at both ends -/
+example : ∀ t ∈ [PTok.jmp none, PTok.num 1, PTok.rep (some 2), PTok.mul 3, PTok.lin (some 2), PTok.num 12,
+    PTok.log none, PTok.num 48, PTok.rep none, PTok.jmp (some 2)], PTok.inG t = true := by decide
+
+/-- the count `0` is outside G for a reason: after a `0R` that follows a shortcut the code finds no value to
+    continue from (it rejects the list), while MCNP's reading would continue from the repeated entry -/
+theorem C08_expand_zero_count_refuted :
+    ¬ ((parseList [PTok.num 1, PTok.rep none, PTok.rep (some 0), PTok.rep none]).map
+        (fun items => (flatP items).map PVal.toVal)
+      = expand ([PTok.num 1, PTok.rep none, PTok.rep (some 0), PTok.rep none].map PTok.toEntry)) := by decide
 
 end MontePyVerif.C08
